@@ -70,6 +70,31 @@ CLAIMED = {
              "rounding and libm. Known finding C02-roundshape-segments (Circle/Ellipse .segments() under non-orthogonal images).",
         technique="Lean 4 proof (ring / linear_combination over a field, list induction) + differential correspondence + relation oracle on the implementation",
         ref="DESIGN.md §4 C02"),
+    "C05": dict(
+        text="Lean 4 theorems over an ordered field (sqrt as 'a number whose square is', rotation and position as unit pairs): both "
+             "endpoints lie on the ellipse about the F.6.5 centre; the F.6.6 correction is the least uniform scale reaching both "
+             "endpoints; every point of the arc satisfies the implicit ellipse equation with the given rotation and (corrected) radii; "
+             "the code's orientation test has the sign of the centre coefficient, and with it the four flag combinations give "
+             "direction = sweep flag, extent > half turn iff large-arc flag, never beyond a turn; negative radii act as absolute "
+             "values; zero radius / coincident endpoints give zero extent and the line's (resp. no) points. Model (_svg_parameterize, "
+             "point_at_t, t_at_point) tied to the code by differential execution; an F.6.5 evaluator written from the specification "
+             "(atan2-based) plus the intrinsic relations are evaluated on the implementation.",
+        note="Partial: the value of acos and the inversion t_at_point(point_at_t) (KL) are validated by correspondence only; arcs within "
+             "1e-6 rad of the exact half turn are compared with tolerance 1e-5 relative (conditioning). IEEE rounding, libm.",
+        technique="Lean 4 proof (field_simp/linear_combination/nlinarith over an ordered field) + differential correspondence + specification-derived F.6 oracle",
+        ref="DESIGN.md §4 C05"),
+    "C08": dict(
+        text="Lean 4 theorems over a linearly ordered field: line and quadratic-Bezier boxes contain point(t) for every t in [0,1], are "
+             "ordered, and each side is attained (vertex/endpoint case analysis); the box of any list of members (path, subpath, group, "
+             "use) is the componentwise union, contains every member and each side is some member's side (list induction), empty "
+             "containers have none; stroke growth by delta on every side. Cubic and arc boxes are NOT proved: the transcribed "
+             "algorithms (Model/BBox.lean) are compared with the code, and a dense-sampling + ternary-refinement oracle checks "
+             "containment and tightness of all four sides on the implementation, for segments, shapes/paths/subpaths in all four "
+             "(transformed, with_stroke) combinations with painted/none/unset strokes, and groups.",
+        note="Partial: cubic Bezier and elliptical-arc boxes are decided by correspondence + oracle, not by theorem. Known finding "
+             "C08-roundshape-bbox. Sampling oracle resolution 161 samples + refinement, tolerance 2e-7 of the object size.",
+        technique="Lean 4 proof (ordered-field case analysis, nlinarith, list induction) for lines/quadratics/unions/stroke + differential correspondence + sampling oracle for cubics and arcs",
+        ref="DESIGN.md §4 C08"),
 }
 ALL = ["C%02d" % i for i in range(1, 21)]
 
